@@ -47,6 +47,20 @@ func TestVerifC03(t *testing.T) {
 	for _, c := range vbC03Corpus {
 		vbC03Case(t, out, "c03-corpus-"+c.name, "[[interfaces]]\nname = \"eth0\"\nadvertise = true\n"+c.toml)
 	}
+	// the binary64 round-up window of every binade 2^24 .. 2^31 s: last fraction that truncates, first that rounds up
+	for k := 24; k <= 31; k++ {
+		w := int64(1953125) >> (44 - k) // window width in ns
+		for _, sec := range []int64{1 << k, 1<<(k+1) - 1} {
+			if sec >= 4294967295 {
+				sec = 4294967294
+			}
+			for _, d := range []int64{-1, 0} {
+				ns := sec*1e9 + 1e9 - w + d
+				vbC03Case(t, out, fmt.Sprintf("c03-window-%d-%d-%d", k, sec, d+1),
+					fmt.Sprintf("[[interfaces]]\nname = \"eth0\"\nadvertise = true\n[[interfaces.rdnss]]\nlifetime = \"%dns\"\nservers = [\"2001:db8::1\"]\n", ns))
+			}
+		}
+	}
 	n := 2000
 	if verifh.Thorough() {
 		n = 30000
